@@ -4,6 +4,7 @@ import (
 	"encoding/json"
 	"fmt"
 	"reflect"
+	"regexp"
 	"strings"
 	"sync"
 
@@ -69,6 +70,18 @@ func mkCalls(r *gal.Rng, types []twoTag, n int) []hcall {
 				h.exps = ne
 				h.kind += "+localfn"
 			}
+		case x < 7 && r.Chance(35): // a re rule with a pattern no earlier call used: compiled (and perhaps cached) inside the call
+			m := fmt.Sprintf("M%dr", i)
+			pat := fmt.Sprintf("^[a-c]{%d}x*%d?$", r.Range(1, 4), i)
+			val := r.Pick([]string{"abc", "ab", "abcx", "zz"})
+			matched, _ := regexp.MatchString(pat, val)
+			orc := newOracles()
+			orc.re[[2]string{pat, val}] = matched
+			h.call = &walkCall{Entry: "var", VarRules: []string{"re='" + pat + "'|" + m}, Src: val, Orc: orc}
+			if !matched {
+				h.exps = []expE{{"C", "", m}}
+			}
+			h.kind = "var-re"
 		case x < 7:
 			sp := specimens[r.Intn(len(specimens))]
 			rv := sp.rules[r.Intn(len(sp.rules))]
